@@ -80,6 +80,7 @@ package filecache
 
 //@ func (c *FileCache) Close(file *os.File) (err error)  property C14 C16
 //@   preserves c
+//@   unreachable return#3: a cached entry with a zero reference count cannot be the handle being closed, which is lent out (precondition) and therefore counted
 //@   requires file != nil && c.$lent[file] > 0
 //@   modifies mapof(c.removed), c.removed, file.$open, heap("F:~/store/filecache.entry.refs"), c.$lent
 //@   ghost at entry: c.$lent = c.$lent[file := c.$lent[file] - 1]
